@@ -114,8 +114,10 @@ class WidthDispatch(Contract):
         return True
 
     def frame(self, eng, st, a):
-        for f in ("_inner", "top", "bot", "step", "width", "_width"):
-            st.heap.havoc_field(f)
+        # caches only: a slice's _inner slot, a reference's _width slot (of the argument or of what it is built from)
+        st.heap.havoc_field("_inner")
+        st.heap.havoc_field("_width")
+        st.heap.havoc_field("_width$none")
 
     def p_value(self, eng, st0, st, a, res):
         from . import c_export, c_slice
